@@ -22,18 +22,20 @@ type C17Case struct {
 	Slots   map[string]string `json:"slots"` // slot -> comment text placed there
 	Sites   string            `json:"sites"` // which declarations contain instances: d2 | d2+d3 | d4 ; suffix "/funcs": all declarations are functions
 	File    string            `json:"file"`
+	Mode    string            `json:"mode,omitempty"` // "" = library API | cli (main.go has its own copy of the comment clean-up)
 }
 
 func init() {
 	core.Register(&core.Property{
 		ID:    "C17",
 		Level: "model_checking",
-		Rule: "universe = skeleton of three top-level declarations (struct type / function containing the site / variable) with 19 comment slots (file header, build directive, package doc, package-line trailer, free-standing between declarations, doc of each declaration, own-line and end-of-line inside each, inside an expression, trailing each declaration, end of file) x every placement of <=2 (thorough <=3) comments of kind {// , /* */, //go: directive} x 7 changes (expression, statement insert, statement with elision, whole function declaration, type declaration, value declaration, expression + import) x sites in {function, function+variable}. " +
+		Rule: "universe = skeleton of three top-level declarations (struct type / function containing the site / variable) with 19 comment slots (file header, build directive, package doc, package-line trailer, free-standing between declarations, doc of each declaration, own-line and end-of-line inside each, inside an expression, trailing each declaration, end of file) x every placement of <=2 (thorough <=3) comments of kind {// , /* */, //go: directive} x 7 changes (expression, statement insert, statement with elision, whole function declaration, type declaration, value declaration, expression + import) x sites in {function, function+variable} x {library API, command line}. " +
 			"Oracle: for every declaration whose canonical syntax is unchanged, the list of its comments (doc group, comments inside its extent, comment on its last line) is identical in input and output; same for the comments up to the package clause; the multiset of all output comments is contained in the input's. non-trivial = at least one comment placed and the change applies",
 		Assumptions: []string{"comments separated from declarations by blank lines on both sides belong to no declaration and are only subject to the multiset rule"},
 		Bounds:      func(tier string) map[string]any { return map[string]any{"slots": len(c17SlotOrder), "max_comments": c17Max(tier)} },
 		NewCase:     func() any { return &C17Case{} },
 		Gen:         c17Gen,
+		Setup:       cliSetup,
 		Run:         c17Run,
 	})
 }
@@ -191,6 +193,7 @@ func c17Gen(tier string, emit func(any)) {
 					cp[k] = v
 				}
 				emit(&C17Case{PatchID: id, Changes: patches[id], Slots: cp, Sites: sites, File: c17Render(cp, sites)})
+				emit(&C17Case{PatchID: id, Changes: patches[id], Slots: cp, Sites: sites, File: c17Render(cp, sites), Mode: "cli"})
 			}
 		}
 	}
@@ -288,9 +291,16 @@ func c17Run(env *core.Env, ci any) core.Outcome {
 		return core.Outcome{Skip: "patch rejected: " + firstWords(stripPos(err.Error()), 7)}
 	}
 	out, err := pf.Apply("a.go", []byte(c.File))
-	o := core.Outcome{Class: "applied/" + c.PatchID}
+	if c.Mode == "cli" {
+		var rej string
+		out, err, rej = cliRunner(env)(ptext, &MCase{File: c.File})
+		if rej != "" {
+			return core.Outcome{Skip: rej}
+		}
+	}
+	o := core.Outcome{Class: "applied/" + c.PatchID + c.Mode}
 	bad := func(key, format string, a ...any) core.Outcome {
-		o.Violation = fmt.Sprintf("[%s, sites=%s, slots=%v] ", c.PatchID, c.Sites, c.Slots) + fmt.Sprintf(format, a...) + "\n--- patch:\n" + ptext + "--- file:\n" + c.File + "--- output:\n" + string(out)
+		o.Violation = fmt.Sprintf("[%s, sites=%s, slots=%v, %s] ", c.PatchID, c.Sites, c.Slots, c.Mode) + fmt.Sprintf(format, a...) + "\n--- patch:\n" + ptext + "--- file:\n" + c.File + "--- output:\n" + string(out)
 		o.FindingKey = "C17:" + key + "/" + c.PatchID
 		if strings.HasPrefix(key, "!") { // semantic key: independent of the patch kind
 			o.FindingKey = "C17:" + key[1:]
